@@ -69,8 +69,10 @@ func (k Keeper) HandleRelay(ctx sdk.Ctx, relay pc.Relay) (*pc.RelayResponse, sdk
 		}
 		return nil, err
 	}
+	pc.SimYield("relay/validated")
 	// store the proof before execution, because the proof corresponds to the previous relay
 	relay.Proof.Store(maxPossibleRelays, servicerNode.EvidenceStore)
+	pc.SimYield("relay/stored")
 	// attempt to execute
 	respPayload, err := relay.Execute(hostedBlockchains, &servicerNodeAddr)
 	if err != nil {
